@@ -235,11 +235,13 @@ def _scan_body(x0: int, x1: int, x2: int, x3: int, x4: int, x5: int, x6: int, x7
             # which tag is missing relative to the circuit it was copied from?
             cur = tagset(c)
             missing = [t for t in tags if t not in cur and t not in state.get('gone', set())]
+            # the missing tags all belong to the one operation just removed (a block carries several):
+            # the stub accepts by the smallest of them
             t = missing[0] if missing else None
             tried.append(t)
             ok = t is not None and acc.get(t, 0) == 1
             if ok:
-                state.setdefault('gone', set()).add(t)
+                state.setdefault('gone', set()).update(missing)
             return 0.0 if ok else 1.0
         orig = Circuit.instantiate
         Circuit.instantiate = lambda self, *a, **k: self      # type: ignore
@@ -253,11 +255,18 @@ def _scan_body(x0: int, x1: int, x2: int, x3: int, x4: int, x5: int, x6: int, x7
             data._target = UnitaryMatrix(np.eye(2 ** W))
             before = flat_of(circ)
             nb = circ.num_operations
+            from harness.circ_common import tagset as op_tags
+            ops_before = [(sorted(op_tags(op)), filt(op)) for op in circ]
             _drive(p.run(circ, data))
         finally:
             Circuit.instantiate = orig                       # type: ignore
-        # blocks (CircuitGates) have several tags: handled by tag sets
-        removed = {t for t in tags if col[t] == 1 and acc[t] == 1}
+        # per OPERATION: removed iff the filter collects it and the stub accepts its removal; a block
+        # (CircuitGate, several tags, always collected by this filter) goes or stays as a whole
+        removed = set()
+        for ts, collected in ops_before:
+            ints = [t for t in ts if isinstance(t, int)]
+            if ints and collected and acc[ints[0]] == 1:
+                removed.update(ints)
         exp = tuple(tuple(e for e in line if e[0] not in removed) for line in before)
         return exp, flat_of(circ), nb, circ.num_operations, tried
     try:
